@@ -95,3 +95,142 @@ Print Assumptions C09_misuse_unaligned_offset.
 Print Assumptions C09_misuse_too_much_input.
 Print Assumptions C09_misuse_finalize_with_offset.
 Print Assumptions C09_misuse_empty_subtree.
+
+(* ---- the model against the source text: src/hazmat.rs -------------------------------------------------------
+   gen/GenHazmat.v is the text of `impl HasherExt for Hasher` (new_from_context_key, set_input_offset,
+   finalize_non_root), Mode::key_words / flags_byte, merge_subtrees_inner / non_root / root / root_xof and
+   hash_derive_key_context (src/hazmat.rs), translated statement by statement (tools/gen_coq.py gen_hazmat, regenerated
+   from /repo on every run), together with platform::words_from_le_bytes_32 and the constructors Hasher::new /
+   new_keyed / Default::default of src/lib.rs.  The asserts carry the models' Panic codes and must carry the source's
+   messages ("hasher has already accepted input" 23, "offset .. must be a chunk boundary .." 24, "empty subtrees are
+   never valid" 25).  `Platform::detect()` is the last parameter of every function that calls it; the functions called
+   but not translated there are parameters, instantiated with the models' (m_parent_node_output = the specification's
+   parent_output, m_Output_chaining_value, m_Output_root_hash: Props/C02.v C02_lib_src_loops_repr_def;
+   m_hash_all_at_once = Model/RsWide.v hash_all_at_once); OutputReader::new is gen/GenXof.v's translation.  The models
+   take (key words, flags) where the source takes a Mode: the theorems are stated at the key words and the flags byte
+   the translated Mode methods compute, and those are tied to the machine's mode_init.  Each translated function
+   EQUALS the model function on every argument, every fuel value, including the Panic results; hypotheses are type
+   invariants (u8 fields, 32-byte keys) and the side conditions of Hasher::final_output's tie (Props/C02.v
+   C02_lib_src_final_output).  Proofs in Proofs/GenHazmatP.v. *)
+From V Require Import gen.GenConsts gen.GenLibSmall gen.GenLibLoops gen.GenXof gen.GenHazmat Model.RsWide Model.RsXof
+  Model.Machine Proofs.GenLibSmallP Proofs.GenLibLoopsP Proofs.GenXofP Proofs.GenHazmatP.
+
+Theorem C09_hazmat_src_repr_def :
+  mode_key hz_Mode_Hash = rs_IV /\
+  (forall k, mode_key (hz_Mode_KeyedHash k) = words_of_bytes k) /\
+  (forall k, mode_key (hz_Mode_DeriveKeyMaterial k) = words_of_bytes k) /\
+  mode_flags hz_Mode_Hash = 0 /\
+  (forall k, mode_flags (hz_Mode_KeyedHash k) = rs_flag_KEYED_HASH) /\
+  (forall k, mode_flags (hz_Mode_DeriveKeyMaterial k) = rs_flag_DERIVE_KEY_MATERIAL) /\
+  mode_ok hz_Mode_Hash /\
+  (forall k, mode_ok (hz_Mode_KeyedHash k) = (length k = 32%nat)) /\
+  (forall k, mode_ok (hz_Mode_DeriveKeyMaterial k) = (length k = 32%nat)) /\
+  (forall ck, hz_mode_of MHash ck = hz_Mode_Hash) /\
+  (forall k ck, hz_mode_of (MKeyed k) ck = hz_Mode_KeyedHash k) /\
+  (forall c ck, hz_mode_of (MDerive c) ck = hz_Mode_DeriveKeyMaterial ck) /\
+  (forall c ck, hz_mode_of (MDeriveK c) ck = hz_Mode_DeriveKeyMaterial ck) /\
+  (forall p input key flags,
+     m_hash_all_at_once p input key flags = GenLibLoopsP.res_map (lib_of_out p) (hash_all_at_once p input key flags)).
+Proof. repeat split. Qed.
+Print Assumptions C09_hazmat_src_repr_def.
+
+Theorem C09_hazmat_src_words_from_le_bytes_32 : forall bytes, length bytes = 32%nat ->
+  hz_words_from_le_bytes_32 bytes = words_of_bytes bytes.
+Proof. exact hz_words_from_le_bytes_32_eq. Qed.
+Print Assumptions C09_hazmat_src_words_from_le_bytes_32.
+
+(* the constructors: Hasher::new, Default::default, Hasher::new_keyed, HasherExt::new_from_context_key *)
+Theorem C09_hazmat_src_hasher_new : forall p,
+  hz_Hasher_new p = lib_of_hasher p (new_internal rs_IV 0) /\
+  hz_Hasher_Default_default p = lib_of_hasher p (new_internal rs_IV 0).
+Proof. intros. split; reflexivity. Qed.
+Print Assumptions C09_hazmat_src_hasher_new.
+
+Theorem C09_hazmat_src_hasher_new_keyed : forall key p, length key = 32%nat ->
+  hz_Hasher_new_keyed key p = lib_of_hasher p (new_internal (words_of_bytes key) rs_flag_KEYED_HASH).
+Proof. exact hz_Hasher_new_keyed_eq. Qed.
+Print Assumptions C09_hazmat_src_hasher_new_keyed.
+
+Theorem C09_hazmat_src_new_from_context_key : forall ck p, length ck = 32%nat ->
+  hz_Hasher_new_from_context_key ck p = lib_of_hasher p (new_internal (words_of_bytes ck) rs_flag_DERIVE_KEY_MATERIAL).
+Proof. exact hz_Hasher_new_from_context_key_eq. Qed.
+Print Assumptions C09_hazmat_src_new_from_context_key.
+
+Theorem C09_hazmat_src_set_input_offset : forall p h off, cs_blocks (h_cs h) < 2 ^ 8 -> cs_buf_len (h_cs h) < 2 ^ 8 ->
+  hz_Hasher_set_input_offset (lib_of_hasher p h) off = GenLibLoopsP.res_map (lib_of_hasher p) (set_input_offset h off).
+Proof. exact hz_Hasher_set_input_offset_eq. Qed.
+Print Assumptions C09_hazmat_src_set_input_offset.
+
+Theorem C09_hazmat_src_finalize_non_root : forall p fuel h, cs_blocks (h_cs h) < 2 ^ 8 -> cs_buf_len (h_cs h) < 2 ^ 8 ->
+  (length (h_stack h) <= fuel)%nat -> (forall a, h_stack h = [a] -> cs_count (h_cs h) <> Ok 0) ->
+  hz_Hasher_finalize_non_root m_parent_node_output m_Output_chaining_value fuel (lib_of_hasher p h)
+  = finalize_non_root p h.
+Proof. exact hz_Hasher_finalize_non_root_eq. Qed.
+Print Assumptions C09_hazmat_src_finalize_non_root.
+
+(* Mode::key_words / flags_byte; every mode of the machine is one of these *)
+Theorem C09_hazmat_src_mode_key_words : forall mode, mode_ok mode -> hz_Mode_key_words mode = mode_key mode.
+Proof. exact hz_Mode_key_words_eq. Qed.
+Print Assumptions C09_hazmat_src_mode_key_words.
+
+Theorem C09_hazmat_src_mode_flags_byte : forall mode, hz_Mode_flags_byte mode = mode_flags mode.
+Proof. exact hz_Mode_flags_byte_eq. Qed.
+Print Assumptions C09_hazmat_src_mode_flags_byte.
+
+Theorem C09_hazmat_src_mode_init : forall p m key flags, mode_init p m = Ok (key, flags) ->
+  exists ck, match m with MDerive c | MDeriveK c => rs_hash_derive_key_context p c = Ok ck | _ => ck = [] end /\
+             key = mode_key (hz_mode_of m ck) /\ flags = mode_flags (hz_mode_of m ck).
+Proof. exact mode_init_hz. Qed.
+Print Assumptions C09_hazmat_src_mode_init.
+
+Theorem C09_hazmat_src_merge_subtrees_inner : forall l r mode p,
+  hz_merge_subtrees_inner m_parent_node_output l r mode p
+  = lib_of_out p (merge_subtrees_inner (hz_Mode_key_words mode) (hz_Mode_flags_byte mode) l r).
+Proof. exact hz_merge_subtrees_inner_eq. Qed.
+Print Assumptions C09_hazmat_src_merge_subtrees_inner.
+
+(* the same with the TRANSLATED parent_node_output of gen/GenLibSmall.v, for 32-byte children *)
+Theorem C09_hazmat_src_merge_subtrees_inner_src : forall l r mode p, length l = 32%nat -> length r = 32%nat ->
+  hz_merge_subtrees_inner lib_parent_node_output l r mode p
+  = lib_of_out p (merge_subtrees_inner (hz_Mode_key_words mode) (hz_Mode_flags_byte mode) l r).
+Proof. exact hz_merge_subtrees_inner_src. Qed.
+Print Assumptions C09_hazmat_src_merge_subtrees_inner_src.
+
+Theorem C09_hazmat_src_merge_subtrees_non_root : forall l r mode p,
+  hz_merge_subtrees_non_root m_parent_node_output m_Output_chaining_value l r mode p
+  = merge_subtrees_non_root p (hz_Mode_key_words mode) (hz_Mode_flags_byte mode) l r.
+Proof. exact hz_merge_subtrees_non_root_eq. Qed.
+Print Assumptions C09_hazmat_src_merge_subtrees_non_root.
+
+Theorem C09_hazmat_src_merge_subtrees_root : forall l r mode p,
+  hz_merge_subtrees_root m_parent_node_output m_Output_root_hash l r mode p
+  = merge_subtrees_root p (hz_Mode_key_words mode) (hz_Mode_flags_byte mode) l r.
+Proof. exact hz_merge_subtrees_root_eq. Qed.
+Print Assumptions C09_hazmat_src_merge_subtrees_root.
+
+(* the machine's OpMergeXof adds reader_new (merge_subtrees_inner key flags l r) *)
+Theorem C09_hazmat_src_merge_subtrees_root_xof : forall l r mode p,
+  hz_merge_subtrees_root_xof m_parent_node_output l r mode p
+  = lib_of_rd p (reader_new (merge_subtrees_inner (hz_Mode_key_words mode) (hz_Mode_flags_byte mode) l r)).
+Proof. exact hz_merge_subtrees_root_xof_eq. Qed.
+Print Assumptions C09_hazmat_src_merge_subtrees_root_xof.
+
+(* hash_derive_key_context: hash_all_at_once::<SerialJoin>(context.as_bytes(), IV, DERIVE_KEY_CONTEXT).root_hash().0 *)
+Theorem C09_hazmat_src_hash_derive_key_context : forall p ctx,
+  hz_hash_derive_key_context m_Output_root_hash (m_hash_all_at_once p) ctx = rs_hash_derive_key_context p ctx.
+Proof. exact hz_hash_derive_key_context_eq. Qed.
+Print Assumptions C09_hazmat_src_hash_derive_key_context.
+
+(* non-vacuity: the translated functions compute, and agree with the model *)
+Example C09_hazmat_src_nonvacuous :
+  let p := sim_platform 4 16 in
+  let k := repeat 7 32%nat in
+  let h := new_internal (words_of_bytes k) rs_flag_KEYED_HASH in
+  hasher_of_lib (hz_Hasher_new_keyed k p) = h /\
+  GenLibLoopsP.res_map hasher_of_lib (hz_Hasher_set_input_offset (lib_of_hasher p h) 3072) = set_input_offset h 3072 /\
+  hz_Hasher_set_input_offset (lib_of_hasher p h) 3073 = Panic 24 /\
+  hz_Hasher_finalize_non_root m_parent_node_output m_Output_chaining_value 64 (lib_of_hasher p h) = Panic 25 /\
+  hz_merge_subtrees_non_root m_parent_node_output m_Output_chaining_value (repeat 1 32%nat) (repeat 2 32%nat) (hz_Mode_KeyedHash k) p
+    = merge_subtrees_non_root p (words_of_bytes k) rs_flag_KEYED_HASH (repeat 1 32%nat) (repeat 2 32%nat).
+Proof. vm_compute. repeat split. Qed.
+Print Assumptions C09_hazmat_src_nonvacuous.
